@@ -83,7 +83,9 @@ int main(){
 				RealVector v(m);
 				for(std::size_t d = 0; d != m; ++d){ v(d) = (double)a[3 + i*m + d]; ref(d) = std::max(ref(d), v(d) + 1); }
 				pop[i].penalizedFitness() = v; pop[i].unpenalizedFitness() = v;
-				pop[i].selected() = (i % 2 == 0);        // stale flags / ranks must not matter
+				// flags / ranks before the call must not matter: fresh container (all false), re-used container with
+				// stale marks (alternating), or all true — chosen by the op
+				pop[i].selected() = ((n + mu) % 3 == 0) ? false : (((n + mu) % 3 == 1) ? (i % 2 == 0) : true);
 				pop[i].rank() = 7;
 			}
 			if(ind == "hv"){ IndicatorBasedSelection<HypervolumeIndicator> s; s.indicator().setReference(ref); runSelection(s, pop, mu, os, orc, true); }
